@@ -10,6 +10,23 @@ TRUSTED_BASE = [
 
 P = {}
 
+import re as _re, subprocess as _sp, os as _os
+
+def eval_with_defs(root, proof_files, evals, tag):
+    """Witness search: the definitions of coq/Proofs/<file>.v with every Theorem/Lemma block removed
+    (the failing obligation would not compile), followed by Eval commands; returns coqc's output."""
+    src = ''
+    for pf in proof_files:
+        t = open(_os.path.join(root, 'coq', 'Proofs', pf + '.v')).read()
+        t = _re.sub(r'(?ms)^(Theorem|Lemma|Corollary)\b.*?\b(Qed|Defined)\.', '', t)
+        src += t + '\n'
+    src += '\n'.join(evals) + '\n'
+    p = _os.path.join(root, '.work', 'findbad_%s.v' % tag)
+    open(p, 'w').write(src)
+    out = _sp.run('timeout 900 coqc -Q coq GM ' + p, shell=True, cwd=root, stdout=_sp.PIPE, stderr=_sp.STDOUT).stdout.decode()
+    return ' '.join(out.split())
+
+
 P['C02'] = dict(
     rule='x25: every 2-byte prefix (reaches each of the 2^16 register states once) and third bytes (3 random per state in quick, all 256 in thorough), random strings hashed in random splits; gate: valid frames of sampled common-dialect messages (v1 and v2) with every single-bit flip, byte substitutions and multi-byte damage, read by a dialect-configured frame.Reader. A case is non-trivial when the model output is not a bare rejection; distinct = distinct case lines.',
     assumptions=['the transport returns data or an error per Read call, never both',
@@ -47,14 +64,12 @@ P['C05'] = dict(
 )
 
 def find_bad_struct(root):
-    import subprocess, os
-    src = 'From GM Require Import Tables LayoutSpec Dialects TableLayout.\nEval vm_compute in (find_bad_struct structs).\n'
-    p = os.path.join(root, '.work', 'findbad.v')
-    open(p, 'w').write(src)
-    out = subprocess.run('timeout 300 coqc -Q coq GM ' + p, shell=True, cwd=root, stdout=subprocess.PIPE, stderr=subprocess.STDOUT).stdout.decode()
-    if '= []' in out.replace('\n', ' '):
+    out = eval_with_defs(root, ['TableLayout'],
+                         ['Eval vm_compute in (find_bad_struct structs).',
+                          'Eval vm_compute in (map (fun g => (gs_pkg g, gs_tname g)) (filter (fun g => negb (struct_codec_full (to_gostruct g))) structs)).'], 'layout')
+    if out.count('= []') >= 2:
         return None
-    return 'message structs that no longer follow the MAVLink layout rules: ' + ' '.join(out.split())[:1500]
+    return 'message structs that no longer follow the MAVLink layout rules / whose codec is not well-formed: ' + out[:1500]
 
 P['C03'] = dict(
     rule='every distinct message struct type of the 19 shipped dialects plus 18 user-defined structs with unusual shapes (mixed sizes, arrays, strings, plain char, extensions, enum arrays, mavname, 255-byte payload, invalid ones): CRCExtra(); probe encodings (each field and sampled array elements in turn set to a distinctive pattern, all others zero; all-zero; all-ones; random/boundary values) in v1 and v2; decoding of the encodings and of random full-size payloads. Non-trivial: the model produced bytes / a value / a CRC.',
@@ -65,18 +80,14 @@ P['C03'] = dict(
 
 def find_bad_c17(root):
     w = find_bad_struct(root)
-    import subprocess, os
-    src = ('From GM Require Import Tables Dialect LayoutSpec Dialects Enums TableDialects.\n'
-           'Eval vm_compute in (map gd_name (filter (fun gd => negb (dialect_ok gd)) shipped)).\n'
-           'Eval vm_compute in (filter (fun e => negb (const_agrees e)) enum_consts).\n'
-           'Eval vm_compute in (golden_mismatches "common").\n')
-    p = os.path.join(root, '.work', 'findbad17.v')
-    open(p, 'w').write(src)
-    out = subprocess.run('timeout 600 coqc -Q coq GM ' + p, shell=True, cwd=root, stdout=subprocess.PIPE, stderr=subprocess.STDOUT).stdout.decode()
-    flat = ' '.join(out.split())
-    if flat.count('= []') >= 3 and not w:
+    out = eval_with_defs(root, ['TableDialects'],
+                         ['Eval vm_compute in (map gd_name (filter (fun gd => negb (dialect_ok gd)) shipped)).',
+                          'Eval vm_compute in (filter (fun e => negb (const_agrees e)) enum_consts).',
+                          'Eval vm_compute in (golden_mismatches "common").',
+                          'Eval vm_compute in (filter (fun e1 => negb (forallb (same_msg_same_type e1) (dedupe all_entries []))) (dedupe all_entries [])).'], 'dialects')
+    if out.count('= []') >= 4 and not w:
         return None
-    return ((w or '') + ' | dialects failing init / disagreeing enum constants / golden CRC mismatches: ' + flat)[:2500]
+    return ((w or '') + ' | dialects failing init / disagreeing enum constants / golden CRC mismatches / same id+name with different Go types: ' + out)[:2500]
 
 P['C17'] = dict(
     rule='all 19 shipped dialects: Initialize, CRCExtra of every message, GetMessage for every defined id, its neighbours +-1, 300 (quick) / 20000 (thorough) random ids of the 2^24 space and the ids 2^24-1, 2^24, 2^32-1 (checking the returned codec belongs to the message with that id); 120 / 2000 user dialects built from random subsets with injected duplicate ids and malformed structs. Non-trivial: lookup found a codec or initialisation succeeded.',
@@ -106,14 +117,12 @@ P['C20'] = dict(
 )
 
 def find_bad_c19(root):
-    import subprocess, os
-    src = ('From GM Require Import Tables Enum EnumProofs Enums TableEnums.\n'
-           'Eval vm_compute in (bitmask_failures enums).\n'
-           'Eval vm_compute in (map (fun g => (ge_pkg g, ge_name g)) (filter (fun g => negb (plain_ok g)) enums)).\n')
-    p = os.path.join(root, '.work', 'findbad19.v')
-    open(p, 'w').write(src)
-    out = subprocess.run('timeout 600 coqc -Q coq GM ' + p, shell=True, cwd=root, stdout=subprocess.PIPE, stderr=subprocess.STDOUT).stdout.decode()
-    return 'bitmask enums whose zero / constants / union do not round-trip (value lists), then ordinary enums with inconsistent maps: ' + ' '.join(out.split())[:2500]
+    out = eval_with_defs(root, ['TableEnums'],
+                         ['Eval vm_compute in (filter (fun f => negb (known_failure f)) (bitmask_failures enums)).',
+                          'Eval vm_compute in (map (fun g => (ge_pkg g, ge_name g)) (filter (fun g => negb (plain_ok g)) enums)).'], 'enums')
+    if out.count('= []') >= 2:
+        return None
+    return 'bitmask enums whose zero / constants / union do not round-trip (with the failing values), then ordinary enums with inconsistent maps: ' + out[:2500]
 
 P['C19'] = dict(
     rule='every enum type of the shipped dialects with text methods (registry regenerated from the sources on every run): zero, every defined constant, for bitmask enums random combinations of the single-bit flags and the union of all flags, for ordinary enums random/boundary unnamed values over the whole uint64 range incl. 2^63-1, 2^63, 2^63+1, 2^64-1; MarshalText then UnmarshalText compared with the model (text and value); parsing of garbage, numerals, names and name combinations. Non-trivial: the round trip produced a value.',
